@@ -413,6 +413,7 @@ def assemble(unit, items=None, twin=False):
     out.add("pub mod code {", kind="prelude")
     out.add("use vstd::prelude::*;", kind="prelude")
     out.add("use super::shim::*;", kind="prelude")
+    out.add("use core::marker::PhantomData;", kind="prelude")
     if unit.get("broadcast"):
         out.add("broadcast use {" + ", ".join(unit["broadcast"]) + "};", kind="prelude")
     # glue
@@ -442,6 +443,11 @@ def assemble(unit, items=None, twin=False):
     # functions grouped by impl header
     verify = list(unit.get("verify", []))
     assume = list(unit.get("assume", []))
+    # inherent associated consts of the selected types come along automatically
+    for tp in unit.get("types", []):
+        for p, it in items.items():
+            if it["kind"] == "impl_const" and p.startswith(tp + "::") and "@" not in p and p not in verify and p not in assume:
+                verify.insert(0, p)
     inherent = set(unit.get("inherent_traits", ["ScalarExt"]))
     groups = []  # (header, [(path, assume?)])
     for p, a in [(p, False) for p in verify] + [(p, True) for p in assume]:
